@@ -38,7 +38,7 @@ LEMMAS = {n: {"C17"} for n in ("lemma_off_prefix", "lemma_cbt_prefix", "lemma_cb
                               "lemma_off_step", "lemma_off_zero", "lemma_off_mono", "lemma_off_inj", "lemma_cix", "lemma_cix_props",
                               "lemma_blen_concat", "lemma_off_sub", "lemma_u16_bounds", "lemma_u16_split")}
 UNVERIFIED = {"C17": [
-    "normalize_token_spacing is under contract: every edit it hands to apply_span_edits replaces exactly the gap between two adjacent tokens (so the edits are in the text, on boundaries and pairwise separate); that such a gap holds only whitespace (it is skipped when it contains `/` or a newline) and that changing it does not change the token sequence is not proved",
+    "normalize_token_spacing is under contract: every edit it hands to apply_span_edits replaces exactly the gap between two adjacent tokens (so the edits are in the text, on boundaries and pairwise separate); and that the text it replaces holds no line break and no `/` (so no comment and no intentional line break is touched); that changing such a gap does not change the token sequence is not proved",
     "the other producers of span edits (IndentationVisitor's fix_* helpers): that the spans they push are pairwise disjoint, and that what they replace is only whitespace or an optional comma — the precondition of apply_span_edits and the heart of the property are NOT under contract",
     "apply_indentation_edits, normalize_blank_lines, wrap_long_signatures and the other formatter phases",
     "that the formatted text parses to the same tree with the same comments: only fmtedits.bounded[format_corpus] (bounded) checks it",
@@ -103,7 +103,12 @@ pub open spec fn gap_edits<'a>(ts: Seq<Token<'a>>, es: Seq<SpanEdit>) -> bool {
         && (#[trigger] es[k]).start_offset == ts[i].position.end_offset && es[k].end_offset == #[trigger] ts[i + 1].position.start_offset
 }
 #[verifier::external_body]
-pub fn vt_contains_char(s: &str, c: char) -> (r: bool) { unimplemented!() }
+pub fn vt_contains_char(s: &str, c: char) -> (r: bool) ensures r == s@.contains(c) { unimplemented!() }
+/// the text an edit replaces holds no line break and no `/` (the start of a comment)
+pub open spec fn quiet_gap(cs: Seq<char>, e: SpanEdit) -> bool {
+    !cs.subrange(cix(cs, e.start_offset as int), cix(cs, e.end_offset as int)).contains('\\n')
+    && !cs.subrange(cix(cs, e.start_offset as int), cix(cs, e.end_offset as int)).contains('/')
+}
 #[verifier::external_body]
 pub fn vs_eq(a: &str, b: &str) -> (r: bool) ensures r == (a@ == b@) { unimplemented!() }
 #[verifier::external_body]
@@ -111,6 +116,8 @@ pub fn vspaced_before_paren(t: &str) -> (r: bool) { unimplemented!() }
 """
 
 FORMAT_PROGRAMS = [
+    # a bare `return` / other keywords at the end of a line, the next line starts with a parenthesis
+    "fun report(text: String, quiet: Bool) {\n  if quiet {\n    return\n    (text ^ \"\\n\").lines().len()\n  }\n  println(text)\n}\nfun pick(n: Int): Int {\n  if\n    (n > 1) { return\n      (n) }\n  match\n    (n) { _ => 0 }\n}\nreport(\"a\", True)\nprintln(string_repr(pick(2)))\n",
     # a `let` / assignment whose `=` is on a later line (the spacing pass joins the lines), followed by mis-indented statements that open multi-line strings
     "fun f(): String {\n  let x\n    = 1\n    let s = \"a\n      b\"\n  s\n}\n\nprintln(f())\n",
     "fun g(): String {\n  let total = 0\n  total\n     = 5\n        let t = \"first\n   second\n\n      third\"\n  let u\n\n  = \"x\n y\"\n      println(u)\n  t\n}\nprintln(g())\n",
@@ -266,6 +273,7 @@ proof {
                        decreases="ts0.len() - token_stream.idx"),
                2: dict(invariant=[("tokens_fixed", "tokens@ == ts0, toks_ok_t(src@, ts0), toks_sorted(ts0), __i1 <= ts0.len()"),
                                   ("edits_are_gaps", "edits_ok(src@, edits@), edits_separate(edits@), gap_edits(ts0, edits@)"),
+                                  ("an_edited_gap_holds_no_line_break_and_no_comment", "forall|k: int| 0 <= k < edits@.len() ==> quiet_gap(src@, #[trigger] edits@[k])"),
                                   ("edits_end_before_the_current_token", "forall|k: int| 0 <= k < edits@.len() ==> __i1 < ts0.len() && (#[trigger] edits@[k]).end_offset <= ts0[__i1 as int].position.start_offset")],
                        body_prelude="proof { assert(ts0[__i1 as int].position.end_offset <= ts0[__i1 as int + 1].position.start_offset); assert(tok_ok_t(src@, ts0[__i1 as int])); assert(tok_ok_t(src@, ts0[__i1 as int + 1])); }",
                        decreases="ts0.len() - __i1")},
